@@ -14,6 +14,7 @@ import (
 type executor struct {
 	msgs  [4]*stun.Message
 	stale [4]bool // attribute views point into memory overwritten by a failed header-stage decode
+	ag    *agentExec
 	ext  map[string]func(*executor, []string) (string, bool)
 }
 
